@@ -1,4 +1,114 @@
-/-! Line protocol handler for the `enm` domain (stub until the model exists). -/
+import OFCore.EnumCodec
+import OFCore.Drv.Util
+/-!
+Line protocol handler for the `enm` domain (property C15). One self-contained case per line:
+
+```
+enm enc <names> <container> <items>   -> OK <owner> <idx> <dec> <str> <re> <reraw> | ERR
+enm dec <names> <indices>             -> <dec> <str>
+```
+
+* `<names>`: the member names in declaration order, comma separated; a name is the dot-joined
+  hex code points of its characters (`61.62` = "ab"); `-` = no name.
+* `<container>`: `seq[.list|.tuple]`, `int[.<dtype>]`, `str[.arr]`, `obj[.arr]`,
+  `oth[.<dtype>]`, `enc.own`, `enc.foreign` (text after the first `.` only matters to the
+  implementation adapter).
+* `<items>`: comma separated, `-` = empty. `i<int>[.b]` an integer, `s<name>` a string,
+  `m<k>` the k-th member of the enumeration, `g<k>` the k-th member of a *different*
+  enumeration declared under the same class name (the class test `cls == item.__class__`
+  compares classes by name, so it is an instance of "the class" carrying index k),
+  `f<k>` the k-th member of an enumeration with another class name, `o[.<what>]` anything else.
+  For `enc.*` the items are `i<k>`: the indices held by the `EnumArray`.
+* answer: `<owner>` = `own|foreign`; `<idx>` the encoded indices; `<dec>` the positions of the
+  members returned by `decode()`; `<str>` the names returned by `decode_to_str()`; `<re>` the
+  indices of `encode(result)`; `<reraw>` the indices of `encode(numpy.asarray(result))`. Lists
+  are comma separated, `-` when empty, `ERR` when that step raises, `~` when not observed
+  (decode of an array owned by the other enumeration).
+-/
 namespace OFCore.Drv
-def handleEnm (_args : List String) : String := "BAD"
+open OFCore.EnumCodec
+
+def hexNat? (s : String) : Option Nat :=
+  if s.isEmpty then none
+  else s.toList.foldl (fun acc c => do let a ← acc; let d ← hexVal c; pure (a * 16 + d)) (some 0)
+
+def enmName? (tok : String) : Option String :=
+  if tok.isEmpty then some ""
+  else (tok.splitOn ".").mapM (fun h => (hexNat? h).map Char.ofNat) |>.map String.ofList
+
+def enmShowName (s : String) : String :=
+  ".".intercalate (s.toList.map (fun c => String.ofList (Nat.toDigits 16 c.toNat)))
+
+def enmList (tok : String) : List String :=
+  if tok = "-" then [] else tok.splitOn ","
+
+def enmShowList (xs : List String) : String :=
+  if xs.isEmpty then "-" else ",".intercalate xs
+
+def enmHead (tok : String) : String := (tok.splitOn ".").headD ""
+
+def enmElem? (tok : String) : Option Elem :=
+  match tok.toList with
+  | 'i' :: r => ((enmHead (String.ofList r)).toInt?).map Elem.int
+  | 's' :: r => (enmName? (String.ofList r)).map Elem.str
+  | 'm' :: r => ((String.ofList r).toNat?).map (Elem.member 0)
+  | 'g' :: r => ((String.ofList r).toNat?).map (Elem.member 0)
+  | 'f' :: r => ((String.ofList r).toNat?).map (Elem.member 1)
+  | 'o' :: _ => some Elem.other
+  | _ => none
+
+def enmInput? (container : String) (items : List String) : Option Input := do
+  let xs ← items.mapM enmElem?
+  match enmHead container with
+  | "seq" => pure (.seq xs)
+  | "obj" => pure (.objArr xs)
+  | "int" => if xs.all Elem.isInt then pure (.intArr (xs.map Elem.intVal)) else none
+  | "str" => if xs.all Elem.isStr then pure (.strArr (xs.map Elem.strVal)) else none
+  | "oth" => if xs.all (· == Elem.other) then pure (.otherArr xs.length) else none
+  | "enc" =>
+    if xs.all (fun x => x.isInt && decide (0 ≤ x.intVal)) then
+      let owner := if container = "enc.own" then 0 else 1
+      pure (.encoded ⟨owner, xs.map (fun x => x.intVal.toNat)⟩)
+    else none
+  | _ => none
+
+def enmShowIdx (r : Except String EnumArray) : String :=
+  match r with
+  | .ok a => enmShowList (a.idx.map toString)
+  | .error _ => "ERR"
+
+def enmShowDec (e : Enumeration) (a : EnumArray) : String :=
+  match decode e a with
+  | .ok ms => enmShowList (ms.map (fun m => toString m.indexAttr))
+  | .error _ => "ERR"
+
+def enmShowStr (e : Enumeration) (a : EnumArray) : String :=
+  match decodeToStr e a with
+  | .ok ss => enmShowList (ss.map enmShowName)
+  | .error _ => "ERR"
+
+def handleEnm (args : List String) : String :=
+  match args with
+  | ["enc", names, container, items] =>
+    match (enmList names).mapM enmName?, enmInput? container (enmList items) with
+    | some ns, some x =>
+      let e : Enumeration := ⟨0, ns⟩
+      match encode e x with
+      | .error _ => "ERR"
+      | .ok a =>
+        let own := a.owner == e.cid
+        let dec := if own then enmShowDec e a else "~"
+        let str := if own then enmShowStr e a else "~"
+        let re := enmShowIdx (encode e (.encoded a))
+        let reraw := enmShowIdx (encode e (.intArr (a.idx.map Int.ofNat)))
+        s!"OK {if own then "own" else "foreign"} {enmShowList (a.idx.map toString)} {dec} {str} {re} {reraw}"
+    | _, _ => "BAD"
+  | ["dec", names, idx] =>
+    match (enmList names).mapM enmName?, (enmList idx).mapM String.toNat? with
+    | some ns, some is =>
+      let e : Enumeration := ⟨0, ns⟩
+      s!"{enmShowDec e ⟨0, is⟩} {enmShowStr e ⟨0, is⟩}"
+    | _, _ => "BAD"
+  | _ => "BAD"
+
 end OFCore.Drv
